@@ -85,7 +85,8 @@ theorem help_bypasses (s : PState) (rem : List Str) (hh : helpRequested s.P s.cu
 theorem help_bypasses_parse (s : PState) (hh : helpRequested s.P s.cur = true) : requiredAtParse s = none := by
   simp [requiredAtParse, hh]
 
-/-- the help command: help of the parent level, of a named sibling, or the "no help topic" error -/
+/-- the help command: help of the parent level, of the sibling registered under the given name, or the
+"no help topic" error -/
 theorem help_command (s : PState) (rem : List Str)
     (hh : helpRequested s.P s.cur = false) (hr : checkRequired s.P s.cur = none)
     (hcmd : (s.P.node s.cur).isHelp = true) :
@@ -93,8 +94,8 @@ theorem help_command (s : PState) (rem : List Str)
       match rem with
       | [] => .helpCalled (helpOutput ext s.P ((s.P.node s.cur).parent.getD 0) [])
       | a :: _ =>
-        match (s.P.node ((s.P.node s.cur).parent.getD 0)).cmds.find? fun kv => (s.P.node kv.2).name == a with
-        | some kv => .helpCalled (helpOutput ext s.P kv.2 [])
+        match lookup a (s.P.node ((s.P.node s.cur).parent.getD 0)).cmds with
+        | some c => .helpCalled (helpOutput ext s.P c [])
         | none => .noHelpTopic a := by
   unfold dispatch
   simp only [hh, hr, hcmd, Bool.false_eq_true, ↓reduceIte]
